@@ -482,4 +482,6 @@ def run(ctx):
     compare_slots(ctx, m, (('cm', 'cc'),), 'C19.5-patterns')
     predicate_rules(ctx, repo, m)
     ctx.assume('the documented ULA pattern: 192 lines, 128 contended T-states per line from T=14335 (48K, 224 T/line) / 14361 (128K, 228 T/line), delays 6,5,4,3,2,1,0,0')
+    from sa.rules import memo
+    memo.run_for(ctx, repo, 'C19')
     return report.finish(ctx, EXPLANATION)
